@@ -760,7 +760,9 @@ func runC19(r *Run) {
 	// keep the per-case watchdog above that so a loaded machine never shows up as a `hang`
 	r.CaseTimeout = 150 * time.Second
 	r.Rule = "real bash runs of generated hook scripts that source the repository's shell_lib.sh + frameworks/shell/*.sh: (1) exhaustive single-context cases = every context kind (onStartup, Synchronization, Event Added/Modified/Deleted, Group, Schedule, Validating, Mutating, Conversion) x every subset of its documented candidates + __main__ (76 cases); (1c) runs of ONE binding: every ordered pair and triple a,b,a of Synchronization / Added / Modified / Deleted contexts of the same binding x three definition modes (48 cases), and 35 % of the contexts of a random array repeat the binding of the context before them; (2) random arrays of 0..6 contexts of every kind incl. odd shapes (unknown type, no type, no binding, unknown watchEvent, onStartup with a type), random subsets of candidate functions plus decoy functions of other bindings/kinds, failures scripted by context index or handler name ending with return 3 / exit 2 / `false` under set -e, args none / --config / other; thorough adds all ordered pairs of kinds x {all specific handlers, only __main__, nothing for the first, nothing for the second} x failure at {none, first, second}. Every defined function also gets a place it looks at the current context from (its own shell: $(…), ( … ), a pipeline element, a background job; or a NEW PROGRAM: an executable helper script that sources the library again and calls context::jq or context::get, bash -c, the helper two execs deep, the helper started through env | xargs), and 15 % of the hooks are started with a stale BINDING_CONTEXT_CURRENT_* selection in their environment; corpus cases 8 (one function, helper script, three contexts) and 9 (one context per way of looking, last handler fails, with and without a stale inherited selection). Every hook also has a script layout (the bundled library loaded before the hook's own definitions / after them / before and a second time through a shared include / only through the include / between the definitions; block of every layout x {--config, dispatch, x --config, --config x}) and 35 % of the hooks inherit one to four variables from the operator's environment (LOG_LEVEL=debug|info|error|trace, LOG_TYPE, DEBUG*, SHELL_OPERATOR_*, KUBE_* ... and names the framework uses as plain shell variables: i, CONTEXT_LENGTH, HANDLERS, handler, handlers, f, frame, ret; a block runs every variable of the pool with an array of 2..5 contexts); corpus cases 10 (every layout: --config and a two-context dispatch) and 11 (LOG_LEVEL=debug with three / five contexts), 12 (thirteen contexts), 13 (second execution with the same binding-context path after a run of a hook that has its own EXIT trap; 10 % of the random arrays are preceded by such a run for another array). A run that has logged more than 3n+12 invocations for n contexts is stopped and judged on its log (a dispatch loop that does not advance). Observation: (index, handler, context read through context::jq, and index / context / binding seen from where the handler looks) per invocation in order, config marker on stdout, exit status; plus the output of hook::_get_possible_handler_names per context. Non-trivial: at least one context and not --config; distinct = distinct op-line sequences."
-	bindings := []string{"pods", "monitor-pods", "cfg.v1", "kubernetes", "schedule", "a_b", "main", "every*min", "x[1]", "what?"}
+	bindings := []string{"pods", "monitor-pods", "cfg.v1", "kubernetes", "schedule", "a_b", "main", "every*min", "x[1]", "what?",
+		// names that CONTAIN the name of another binding kind or of a context type without being it
+		"resync-onStartup-state", "onStartup2", "xonStartup", "Synchronization", "group-pods"}
 	groups := []string{"g1", "grp-a", "pods"}
 
 	// corpus
